@@ -542,7 +542,12 @@ class Analyzer:
             st = copy.deepcopy(st)
             c = st.get(x.target.id)
             if isinstance(c, Cur):
-                inc = x.value.value if isinstance(x.value, ast.Constant) and isinstance(x.value.value, int) else 0
+                def _inc(v):
+                    # a conditional increment advances by at least the smaller of its two values
+                    if isinstance(v, ast.IfExp):
+                        return min(_inc(v.body), _inc(v.orelse))
+                    return v.value if isinstance(v, ast.Constant) and isinstance(v.value, int) else 0
+                inc = _inc(x.value)
                 if c.lt and inc >= 1:
                     st["$consumed"] = True
                 st[x.target.id] = Cur(c.k + max(inc, 0), c.eof, False)
@@ -703,6 +708,20 @@ class Analyzer:
         consumed = bool(st.get("$consumed"))
         if v is None:
             return
+        # a conditional result is two results, each under its side of the test
+        if isinstance(v, ast.IfExp) and self.r.kind != "peek":
+            T, F = self.refine(v.test, st)
+            for alt, s_ in ((v.body, T), (v.orelse, F)):
+                if s_ is not None:
+                    self.ret(ast.copy_location(ast.Return(value=alt), x), s_)
+            return
+        if isinstance(v, ast.Tuple) and len(v.elts) == 2 and isinstance(v.elts[0], ast.IfExp):
+            e0 = v.elts[0]
+            T, F = self.refine(e0.test, st)
+            for alt, s_ in ((e0.body, T), (e0.orelse, F)):
+                if s_ is not None:
+                    self.ret(ast.copy_location(ast.Return(value=ast.copy_location(ast.Tuple(elts=[alt, v.elts[1]], ctx=ast.Load()), v)), x), s_)
+            return
         if isinstance(v, ast.Call):
             r = self.reader_call(v, st, target="$return")
             if r is not None and r[0] is not None:
@@ -732,8 +751,7 @@ class Analyzer:
                     E = E or val.rels[cn][1]
                 cons = cons or (val.C and nl != NULL)
             # int(t[p:i]) / float(t[p:i]) with p the entry cursor raise on an empty slice: a normal return consumed >= 1 char
-            ytxt = src(y)
-            if ("int(t[p:" in ytxt or "float(t[p:" in ytxt) and _is_entry_alias(self.fn, "p"):
+            if _parses_entry_slice(y, self.fn):
                 knn = max(knn, 1)
                 c = Cur(max(c.k, 1), c.eof, c.lt)
                 cons = True
@@ -800,6 +818,23 @@ def _alias_cursors(alias, pred, preds_src):
         except Exception:
             return []
     return curs
+
+
+def _parses_entry_slice(y, fn):
+    """y contains int(<s>) / float(<s>) where <s> is (a local bound once to) the slice t[<entry alias>:<cursor>]: both raise on an
+    empty string, so a normal return has consumed at least one character"""
+    for c in ast.walk(y):
+        if isinstance(c, ast.Call) and isinstance(c.func, ast.Name) and c.func.id in ("int", "float") and len(c.args) == 1:
+            a = c.args[0]
+            if isinstance(a, ast.Name):
+                defs = [n for n in walk_local(fn) if isinstance(n, ast.Assign) and any(isinstance(t, ast.Name) and t.id == a.id for t in n.targets)]
+                if len(defs) != 1:
+                    continue
+                a = defs[0].value
+            if isinstance(a, ast.Subscript) and isinstance(a.value, ast.Name) and a.value.id == "t" and isinstance(a.slice, ast.Slice) and \
+                    isinstance(a.slice.lower, ast.Name) and _is_entry_alias(fn, a.slice.lower.id) and isinstance(a.slice.upper, ast.Name) and a.slice.upper.id == "i":
+                return True
+    return False
 
 
 def _is_entry_alias(fn, name):
